@@ -160,7 +160,30 @@ def r1_languages(ctx):
             nfa = rxdfa.compile_nfa(pat, flags)
             res = rxdfa.compare(pat, flags, SPEC[typ], re.S | re.ASCII)
         except rxdfa.Unsupported as e:
-            raise AnalysisError('%s: unsupported regex construct %s' % (name, e))
+            # a construct the automaton builder does not model (an anchor inside one alternative ...): the two languages
+            # cannot be proved equal, but a witness can still be looked for - the pattern is data: every string up to length
+            # 6 over the alphabet of the value language (sign, point, a digit, a letter) is put to the pattern the way
+            # match_re uses it (first match must be the whole value) and to the specification
+            import itertools as _it2
+            rx_, spec_ = re.compile(pat, flags), re.compile(SPEC[typ], re.S | re.ASCII)
+            wit = None
+            for L_ in range(0, 7):
+                for tup in _it2.product('-.05a', repeat=L_):
+                    s_ = ''.join(tup)
+                    m_ = getattr(rx_, meth if meth in ('search', 'match') else 'search')(s_)
+                    got_ = m_ is not None and m_.group(0) == s_
+                    want_ = spec_.fullmatch(s_) is not None
+                    if got_ != want_:
+                        wit = (s_, got_)
+                        break
+                if wit:
+                    break
+            if wit is None:
+                raise AnalysisError('%s: unsupported regex construct %s' % (name, e))
+            yield Ob(key + ' language', False, ctx.loc('validation', node),
+                     '%s = %r %s %r, which %s a type %s value (found by enumeration: the pattern has a construct the automaton does not model: %s)'
+                     % (name, pat, 'accepts' if wit[1] else 'rejects', wit[0], 'is not' if wit[1] else 'is', typ, e))
+            continue
         if meth == 'search':
             yield Ob(key + ' anchored at the start', bool(nfa.anch_start), ctx.loc('validation', node),
                      '' if nfa.anch_start else '%s = %r is used with search() but not anchored with ^' % (name, pat))
